@@ -183,52 +183,37 @@ theorem mapLevels_spec (L : Lattice) (args : List Arg) (kw : KwArgs) :
 
 /-! ## rules 5-8: the second pass -/
 
-/-- no comparison of these two mappings runs into the tuple-vs-class `TypeError` -/
-def PairsOK (L : Lattice) (m1 m2 : Mapping) : Prop :=
-  ∀ p ∈ m1.typePairs m2, isSpecializationOf L p.1 p.2 ≠ none ∧ isSpecializationOf L p.2 p.1 ≠ none
-
 theorem specLoop_eq (L : Lattice) : ∀ (ts : List (PTy × PTy)) (res : Bool),
-    (∀ p ∈ ts, isSpecializationOf L p.1 p.2 ≠ none ∧ isSpecializationOf L p.2 p.1 ≠ none) →
-    specLoop L ts res = some (ts.all (fun p => !specializes L p.2 p.1) &&
-                              (res || ts.any (fun p => specializes L p.1 p.2)))
-  | [], res, _ => by simp [specLoop]
-  | (t1, t2) :: r, res, h => by
-      have h0 := h (t1, t2) (by simp)
-      have ih := fun res' => specLoop_eq L r res' (fun p hp => h p (by simp [hp]))
-      cases h21 : isSpecializationOf L t2 t1 with
-      | none => exact absurd h21 h0.2
-      | some b21 =>
-          cases h12 : isSpecializationOf L t1 t2 with
-          | none => exact absurd h12 h0.1
-          | some b12 =>
-              cases b21 <;> cases b12 <;> simp [specLoop, h21, h12, ih, specializes]
+    specLoop L ts res = (ts.all (fun p => !specializes L p.2 p.1) &&
+                         (res || ts.any (fun p => specializes L p.1 p.2)))
+  | [], res => by simp [specLoop]
+  | (t1, t2) :: r, res => by
+      have ih := fun res' => specLoop_eq L r res'
+      cases h21 : isSpecializationOf L t2 t1 <;> cases h12 : isSpecializationOf L t1 t2 <;>
+        simp [specLoop, h21, h12, ih, specializes]
 
-theorem isSpecM_eq (L : Lattice) (m1 m2 : Mapping) (h : PairsOK L m1 m2) :
-    isSpecM L m1 m2 = some (moreSpecific L m1 m2) := by
-  simp [isSpecM, moreSpecific, specLoop_eq L _ false h]
+theorem isSpecM_eq (L : Lattice) (m1 m2 : Mapping) : isSpecM L m1 m2 = moreSpecific L m1 m2 := by
+  simp [isSpecM, moreSpecific, specLoop_eq L _ false]
 
 def beats (L : Lattice) (m o : Match) : Bool :=
   o.cand.fd.id == m.cand.fd.id || moreSpecific L m.cand.mapping o.cand.mapping
 
-theorem allSpec_eq (L : Lattice) (m : Match) : ∀ (ms : List Match),
-    (∀ o ∈ ms, PairsOK L m.cand.mapping o.cand.mapping) →
-    allSpec L m ms = some (ms.all (beats L m))
-  | [], _ => by simp [allSpec]
-  | o :: r, h => by
-      have ih := allSpec_eq L m r (fun o' ho => h o' (by simp [ho]))
+theorem allSpec_eq (L : Lattice) (m : Match) : ∀ (ms : List Match), allSpec L m ms = ms.all (beats L m)
+  | [] => by simp [allSpec]
+  | o :: r => by
+      have ih := allSpec_eq L m r
       by_cases hid : o.cand.fd.id = m.cand.fd.id
       · simp [allSpec, hid, ih, beats]
       · have hid' : (o.cand.fd.id == m.cand.fd.id) = false := by simpa using hid
-        simp only [allSpec, hid', isSpecM_eq L _ _ (h o (by simp)), ih, List.all_cons, beats]
-        cases moreSpecific L m.cand.mapping o.cand.mapping <;> simp [beats]
+        simp only [allSpec, hid', isSpecM_eq, ih, List.all_cons, beats]
+        cases moreSpecific L m.cand.mapping o.cand.mapping <;> simp
 
 theorem winners_eq (L : Lattice) (ms : List Match) : ∀ (ms' : List Match),
-    (∀ m ∈ ms', ∀ o ∈ ms, PairsOK L m.cand.mapping o.cand.mapping) →
-    winners L ms ms' = some (ms'.filter fun m => ms.all (beats L m))
-  | [], _ => by simp [winners]
-  | m :: r, h => by
-      have ih := winners_eq L ms r (fun m' hm' => h m' (by simp [hm']))
-      simp only [winners, allSpec_eq L m ms (h m (by simp)), ih, List.filter_cons]
+    winners L ms ms' = ms'.filter fun m => ms.all (beats L m)
+  | [] => by simp [winners]
+  | m :: r => by
+      have ih := winners_eq L ms r
+      simp only [winners, allSpec_eq L m ms, ih, List.filter_cons]
 
 theorem best_eq (L : Lattice) (ms : List Match) : best L ms = ms.filter fun m => ms.all (beats L m) := rfl
 
@@ -240,24 +225,20 @@ theorem mem_matchesOf {L : Lattice} {args : List Arg} {kw : KwArgs} {cs : List C
   | none => simp [hd] at hm
   | some b => simp [hd] at hm; subst hm; exact ⟨hc, hd⟩
 
-/-- the second loop of `choose_overload`, given that no two mapped candidates of one layer
-    run into the `TypeError` -/
+/-- the second loop of `choose_overload` -/
 theorem selectLevel_spec (L : Lattice) (args : List Arg) (kw : KwArgs) : ∀ (lvs : List (List Cand)),
-    (∀ lv ∈ lvs, ∀ c1 ∈ lv, ∀ c2 ∈ lv, PairsOK L c1.mapping c2.mapping) →
     selectLevel L args kw lvs =
       match (lvs.map (matchesOf L args kw)).find? (fun ms => !ms.isEmpty) with
       | none => .error .noMatching
       | some ms => choose L ms
-  | [], _ => by simp [selectLevel]
-  | lv :: r, h => by
-      have ih := selectLevel_spec L args kw r (fun lv' hl => h lv' (by simp [hl]))
+  | [] => by simp [selectLevel]
+  | lv :: r => by
+      have ih := selectLevel_spec L args kw r
       simp only [selectLevel, List.map_cons, List.find?_cons]
       cases he : (matchesOf L args kw lv).isEmpty with
       | true => simp [ih]
       | false =>
-          have hw := winners_eq L (matchesOf L args kw lv) (matchesOf L args kw lv)
-            (fun m hm o ho => h lv (by simp) _ (mem_matchesOf hm).1 _ (mem_matchesOf ho).1)
-          simp only [hw, Bool.not_false, Bool.false_eq_true, if_false, choose, best_eq]
+          simp only [winners_eq, Bool.not_false, Bool.false_eq_true, if_false, choose, best_eq]
           split <;> simp_all
 
 theorem selectLevel_filter (L : Lattice) (args : List Arg) (kw : KwArgs) : ∀ (lvs : List (List Cand)),
@@ -418,15 +399,6 @@ theorem mapArgs_mem {L : Lattice} {ps : List Param} {args : List Arg} {kw : KwAr
 
 /-! ## resolve = resolveSpec -/
 
-def familyTypes (layers : List Layer) : List PTy :=
-  layers.flatMap fun l => l.fns.flatMap fun f => f.params.map (·.ty)
-
-/-- no two parameter types of the family run into the tuple-vs-class `TypeError` of
-    `PythonType.is_specialization_of` (true in particular when no `PythonType` is built over a
-    tuple of classes, or when all of them are) -/
-def SpecTotal (L : Lattice) (layers : List Layer) : Prop :=
-  ∀ a ∈ familyTypes layers, ∀ b ∈ familyTypes layers, isSpecializationOf L a b ≠ none
-
 theorem reach_sub : ∀ (layers : List Layer) (l : Layer), l ∈ reach layers → l ∈ layers
   | [], l, h => by simp [reach] at h
   | x :: r, l, h => by
@@ -444,11 +416,6 @@ theorem visible_mem {method : Bool} {layers : List Layer} {fs : List FDef} {f : 
   obtain ⟨⟨l, hl, rfl⟩, _⟩ := hfs
   simp only [List.mem_filter] at hf
   exact ⟨l, hl, hf.1, hf.2⟩
-
-theorem mem_familyTypes {layers : List Layer} {l : Layer} {f : FDef} {p : Param}
-    (hl : l ∈ layers) (hf : f ∈ l.fns) (hp : p ∈ f.params) : p.ty ∈ familyTypes layers := by
-  simp only [familyTypes, List.mem_flatMap, List.mem_map]
-  exact ⟨l, hl, f, hf, p, hp, rfl⟩
 
 theorem mem_mappedOf {L : Lattice} {args : List Arg} {kw : KwArgs} {lv : List FDef} {c : Cand}
     (h : c ∈ mappedOf L args kw lv) : c.fd ∈ lv ∧ mapArgs L c.fd.params args kw = some c.mapping := by
@@ -468,31 +435,6 @@ theorem mem_typePairs {m1 m2 : Mapping} {p : PTy × PTy} (h : p ∈ m1.typePairs
   · have := List.of_mem_zip hq
     exact ⟨⟨q.1.2, Or.inr ⟨q.1.1, this.1⟩, rfl⟩, ⟨q.2.2, Or.inr ⟨q.2.1, this.2⟩, rfl⟩⟩
 
-/-- what `chooseOverload` needs of the family: any two visible overloads have comparable parameter types -/
-def VisTotal (L : Lattice) (vis : List (List FDef)) : Prop :=
-  ∀ lv1 ∈ vis, ∀ f1 ∈ lv1, ∀ p1 ∈ f1.params, ∀ lv2 ∈ vis, ∀ f2 ∈ lv2, ∀ p2 ∈ f2.params,
-    isSpecializationOf L p1.ty p2.ty ≠ none
-
-theorem pairsOK_of_visTotal {L : Lattice} {vis : List (List FDef)} (ht : VisTotal L vis)
-    {args : List Arg} {kw : KwArgs} {lv1 lv2 : List FDef} (h1 : lv1 ∈ vis) (h2 : lv2 ∈ vis)
-    {c1 c2 : Cand} (hc1 : c1 ∈ mappedOf L args kw lv1) (hc2 : c2 ∈ mappedOf L args kw lv2) :
-    PairsOK L c1.mapping c2.mapping := by
-  intro p hp
-  obtain ⟨⟨a, ha, e1⟩, ⟨b, hb, e2⟩⟩ := mem_typePairs hp
-  have m1 := mem_mappedOf hc1
-  have m2 := mem_mappedOf hc2
-  have ha' : a ∈ c1.fd.params := by
-    rcases ha with ha | ⟨k, ha⟩
-    · exact (mapArgs_mem m1.2).1 a ha
-    · exact (mapArgs_mem m1.2).2 (k, a) ha
-  have hb' : b ∈ c2.fd.params := by
-    rcases hb with hb | ⟨k, hb⟩
-    · exact (mapArgs_mem m2.2).1 b hb
-    · exact (mapArgs_mem m2.2).2 (k, b) hb
-  rw [e1, e2]
-  exact ⟨ht lv1 h1 c1.fd m1.1 a ha' lv2 h2 c2.fd m2.1 b hb',
-         ht lv2 h2 c2.fd m2.1 b hb' lv1 h1 c1.fd m1.1 a ha'⟩
-
 theorem flatten_filter_nonempty {α : Type} : ∀ (l : List (List α)),
     (l.filter fun x => !x.isEmpty).flatten = l.flatten
   | [] => rfl
@@ -501,7 +443,7 @@ theorem flatten_filter_nonempty {α : Type} : ∀ (l : List (List α)),
       | nil => simp [List.filter_cons, flatten_filter_nonempty r]
       | cons a as => simp [List.filter_cons, flatten_filter_nonempty r]
 
-theorem chooseOverload_eq (L : Lattice) (vis : List (List FDef)) (c : Call) (ht : VisTotal L vis) :
+theorem chooseOverload_eq (L : Lattice) (vis : List (List FDef)) (c : Call) :
     chooseOverload L vis c = chooseSpec L vis c := by
   unfold chooseOverload chooseSpec stage decide'
   simp only [List.any_map]
@@ -547,26 +489,15 @@ theorem chooseOverload_eq (L : Lattice) (vis : List (List FDef)) (c : Call) (ht 
                 simp only [hall, if_true, hne, Bool.false_eq_true, if_false, firstSig, List.head?_cons, Option.map_some,
                   Option.getD_some, Bool.not_true]
                 rw [selectLevel_filter, selectLevel_spec]
-                intro lv hlv c1 hc1 c2 hc2
-                simp only [List.mem_map] at hlv
-                obtain ⟨fs, hfs, rfl⟩ := hlv
-                exact pairsOK_of_visTotal ht hfs hfs hc1 hc2
-
-theorem visTotal_of_specTotal {L : Lattice} {layers : List Layer} (method : Bool) (h : SpecTotal L layers) :
-    VisTotal L (visible method layers) := by
-  intro lv1 h1 f1 hf1 p1 hp1 lv2 h2 f2 hf2 p2 hp2
-  obtain ⟨l1, hl1, hm1, _⟩ := visible_mem h1 hf1
-  obtain ⟨l2, hl2, hm2, _⟩ := visible_mem h2 hf2
-  exact h _ (mem_familyTypes (reach_sub _ _ hl1) hm1 hp1) _ (mem_familyTypes (reach_sub _ _ hl2) hm2 hp2)
 
 /-- **C05**: the code-shaped model computes what the written rules prescribe -/
-theorem resolve_eq_spec (L : Lattice) (layers : List Layer) (c : Call) (h : SpecTotal L layers) :
+theorem resolve_eq_spec (L : Lattice) (layers : List Layer) (c : Call) :
     resolve L layers c = resolveSpec L layers c := by
   unfold resolve resolveSpec
   simp only [collect_eq_visible, visible_flatten_isEmpty]
   split
   · rfl
-  · exact chooseOverload_eq L _ c (visTotal_of_specTotal _ h)
+  · exact chooseOverload_eq L _ c
 
 /-! ## corollaries -/
 
@@ -638,26 +569,10 @@ theorem translateArgs_err {nk : Bool} {args : List Arg} {kw : KwArgs} {e : Err}
       · rename_i e' he; cases h; exact Or.inr (hm _ _ _ he)
       · cases h
 
-theorem winners_sub (L : Lattice) (ms : List Match) : ∀ (ms' ws : List Match),
-    winners L ms ms' = some ws → ∀ w ∈ ws, w ∈ ms'
-  | [], ws, h, w, hw => by simp [winners] at h; subst h; simp at hw
-  | m :: r, ws, h, w, hw => by
-      simp only [winners] at h
-      cases ha : allSpec L m ms with
-      | none => simp [ha] at h
-      | some b =>
-          cases hr : winners L ms r with
-          | none => simp [ha, hr] at h
-          | some ws' =>
-              simp only [ha, hr, Option.some.injEq] at h
-              have ih := winners_sub L ms r ws' hr
-              subst h
-              cases b
-              · exact List.mem_cons_of_mem _ (ih w (by simpa using hw))
-              · simp only [if_true, List.mem_cons] at hw
-                rcases hw with hw | hw
-                · simp [hw]
-                · exact List.mem_cons_of_mem _ (ih w hw)
+theorem winners_sub (L : Lattice) (ms ms' : List Match) : ∀ w ∈ winners L ms ms', w ∈ ms' := by
+  intro w hw
+  rw [winners_eq] at hw
+  exact (List.mem_filter.1 hw).1
 
 theorem selectLevel_ok_mem (L : Lattice) (args : List Arg) (kw : KwArgs) {id : Nat} {b : Bound} :
     ∀ (lvs : List (List Cand)), selectLevel L args kw lvs = .ok (id, b) →
@@ -669,10 +584,9 @@ theorem selectLevel_ok_mem (L : Lattice) (args : List Arg) (kw : KwArgs) {id : N
       · obtain ⟨lv', hl, hc⟩ := selectLevel_ok_mem L args kw r h
         exact ⟨lv', by simp [hl], hc⟩
       · split at h
-        · cases h
         · rename_i w hw
           cases h
-          have hwm := winners_sub L _ _ _ hw w (by simp)
+          have hwm := winners_sub L _ _ w (by rw [hw]; simp)
           exact ⟨lv, by simp, w.cand, (mem_matchesOf hwm).1, rfl, (mem_matchesOf hwm).2⟩
         · cases h
 
@@ -798,12 +712,12 @@ theorem choose_ok {L : Lattice} {ms : List Match} {id : Nat} {b : Bound} (h : ch
 
 /-- the chosen overload lies in the nearest layer that has a type-compatible candidate: the
     layers before it have none, and the choice is a function of that layer's matches alone -/
-theorem first_layer_wins (L : Lattice) (layers : List Layer) (c : Call) (hT : SpecTotal L layers)
+theorem first_layer_wins (L : Lattice) (layers : List Layer) (c : Call)
     (id : Nat) (b : Bound) (h : (resolve L layers c).res = .ok (id, b)) :
     ∃ mls pre ms post, matchLayers L layers c = some mls ∧ mls = pre ++ ms :: post ∧
       (∀ x ∈ pre, x = []) ∧ ms ≠ [] ∧ choose L ms = .ok (id, b) ∧
       ∃ w ∈ ms, w.cand.fd.id = id ∧ w.bound = b := by
-  rw [resolve_eq_spec L layers c hT] at h
+  rw [resolve_eq_spec L layers c] at h
   obtain ⟨mls, hm⟩ := spec_ok_matchLayers h
   rw [spec_res_of_matchLayers hm] at h
   unfold decide' at h
@@ -871,12 +785,12 @@ theorem stage_noMatching {L : Lattice} {vis : List (List FDef)} {c : Call}
 /-- `No matching function/method` is raised exactly when the call gets past the kind, no_kwargs and
     keyword-translation stages and then either no overload can be called by this syntax, or the
     laziness check passes and no layer has a type-compatible candidate -/
-theorem no_matching_iff (L : Lattice) (layers : List Layer) (c : Call) (hT : SpecTotal L layers) :
+theorem no_matching_iff (L : Lattice) (layers : List Layer) (c : Call) :
     (resolve L layers c).res = .error .noMatching ↔
       (visible c.receiver.isSome layers).flatten.isEmpty = false ∧
       (stage L (visible c.receiver.isSome layers) c = .error .noMatching ∨
        ∃ mls, matchLayers L layers c = some mls ∧ ∀ ms ∈ mls, ms = []) := by
-  rw [resolve_eq_spec L layers c hT]
+  rw [resolve_eq_spec L layers c]
   simp only [resolveSpec, chooseSpec, matchLayers]
   split
   · rename_i h1; simp [h1]
@@ -1408,8 +1322,6 @@ def famABC : List Layer :=
              fn 2 [pos 'a' 0 (cls 1), pos 'b' 1 (cls 3)]], exclusive := false }]
 
 def callXX : Call := { receiver := none, args := [tick 1, tick 2], kwargs := [] }
-
-example : SpecTotal lat famABC := by unfold SpecTotal; decide
 
 /-- `A` is more specific than the mutually incomparable `B` and `C`: it wins, and both arguments
     were evaluated once, in order -/
